@@ -35,7 +35,7 @@ import (
 //       recover (checkErr).
 //
 // Both are complete over (document type × place) in every tier: one base per
-// place in the quick tier, every base in the thorough tier; the cases run the
+// place in the quick tier, eight bases per place in the thorough tier; the cases run the
 // light pipeline (no signing or verifying: the values do not reach it).
 
 var arithPercents = []string{
@@ -203,7 +203,7 @@ func edgeCases(c *core.Ctx, exs []example) []tcase {
 	var cases []tcase
 	perPlace := 1
 	if c.Thorough() {
-		perPlace = 1 << 30
+		perPlace = 8 // every base would cost 4.5 minutes of the 16 workers (measured: 862 000 cases)
 	}
 	seenNum, seenStr := map[string]int{}, map[string]int{}
 	order := c.Rng.Perm(len(exs)) // which base represents a place changes with the seed
